@@ -22,8 +22,22 @@ MOD = "randomness_tests.nist_suite"
 EXT = "randomness_tests.extended_nist_suite"
 
 
+TABLE_SHAPES = {
+    # what the embedded table looks like, for when the local that holds it has another name
+    "params": lambda v: isinstance(v, ast.List) and len(v.elts) >= 2 and all(isinstance(x, ast.List) and len(x.elts) == 5 for x in v.elts),
+    "precomputed": lambda v: isinstance(v, ast.List) and len(v.elts) >= 5 and all(isinstance(x, ast.Constant) and isinstance(x.value, float) for x in v.elts),
+    "distribution_table": lambda v: isinstance(v, ast.Dict) and len(v.keys) >= 8 and all(isinstance(x, ast.Tuple) and len(x.elts) == 2 for x in v.values),
+    "min_n": lambda v: isinstance(v, ast.Dict) and len(v.keys) >= 8 and all(isinstance(x, ast.Constant) and isinstance(x.value, int) for x in v.values),
+    "pi": lambda v: isinstance(v, ast.List) and len(v.elts) == 7,
+}
+
+
 def local_assign(f, name):
-  out = [s for s in ast.walk(f.node) if isinstance(s, ast.Assign) and len(s.targets) == 1 and isinstance(s.targets[0], ast.Name) and s.targets[0].id == name]
+  """Assignments of the embedded table: by the pinned name, else by the table's shape (the literal is what matters, not what it is called)."""
+  al = [s for s in ast.walk(f.node) if isinstance(s, ast.Assign) and len(s.targets) == 1 and isinstance(s.targets[0], ast.Name)]
+  out = [s for s in al if s.targets[0].id == name]
+  if not out and name in TABLE_SHAPES:
+    out = [s for s in al if TABLE_SHAPES[name](s.value)]
   return out
 
 
@@ -77,10 +91,11 @@ def run(ctx):
   rule_excursion_gate(ctx, exact=True)     # C12: the p-values NIST assigns exist from exactly 500 cycles on (C13 only needs >= 500)
   rule_bits(ctx)
   rule_range(ctx)
+  rule_block(ctx)
   ctx.expect("R-C12-BITS", 2, "entry count + digit mapping")
   ctx.expect("R-C12-UNIVERSAL", 2, "statistic + p-value")
   ctx.expect("R-C12-TEMPLATE", 3, "border test, default set, validation")
-  ctx.expect("R-C12-LADDER", 3, "loop condition, guard agreement, matrix shape")
+  ctx.expect("R-C12-LADDER", 4, "loop condition, guard agreement, matrix shape, block-frequency ladder")
   ctx.expect("R-C12-PURE", 56, "every function of the five modules behind the statistical tests")
   ctx.expect("R-C12-FORMULA", 17, "statistic formulas of ten tests, compared at their sinks")
   ctx.expect("R-C12-TABLES", 60, "17 longest-run + 6 + 33 rank + universal + 11 min_n + 14 linear complexity + 3 excursions")
@@ -1820,3 +1835,55 @@ def rule_range(ctx):
       else:
         ctx.violation(R, f.where, con, "assembled by floating-point arithmetic with enclosure [%g, %g] and not clamped: truncation of the series and rounding can take it outside [0, 1] (%s)" % (lo, hi, repr(v)[:100]))
   ctx.note("R-C12-RANGE followed %d functions from the registry" % nfun)
+
+
+# ------------------------------------------------------------------ BLOCK (block size of the frequency-within-block test)
+def rule_block(ctx):
+  """NIST 2.2.7 (quoted in the source): block size M >= 20 and M > n / 100, i.e. fewer than 100 blocks.  The doubling loop must continue exactly while
+  n // m >= 100 (one doubling less leaves N = 100 blocks and another p-value; one more halves the number of blocks), and the result is max(20, m)."""
+  R = "R-C12-LADDER"
+  repo = ctx.repo
+  f = repo.func(MOD, "BlockFrequency")
+  w = sym.Walker(repo, f)
+  w.run()
+  n = P("param", f.params()[1])
+  loops = [i_ for i_ in w.loop_info.values() if isinstance(i_["node"], ast.While) and i_["visits"]]
+  if len(loops) != 1:
+    ctx.incomplete(R, f.where, "block size ladder", "expected one doubling loop")
+    return
+  info = loops[0]
+  vis = info["visits"][0]
+  ms = [nm for nm in info["modified"] if isinstance(vis["head"].env.get(nm), Poly) and vis["head"].env[nm].as_atom() is not None and vis["head"].env[nm].as_atom().kind == "sym"]
+  probs = []
+  if len(ms) != 1:
+    ctx.incomplete(R, f.where, "block size ladder", "block size variable not identified")
+    return
+  mh = vis["head"].env[ms[0]]
+  pre = vis["pre_env"].get(ms[0])
+  start = as_poly(pre).as_int() if pre is not None and not isinstance(pre, (Seq, tuple)) else None
+  if start is None or start < 1 or start > 20:
+    probs.append("the ladder starts at %r (NIST: M >= 20, so at most 20)" % (pre,))
+  for kind, val, s_, since, v_ in info["body_paths"]:
+    if kind != "fall" or not isinstance(s_.env.get(ms[0]), Poly) or s_.env[ms[0]] != mh * 2:
+      probs.append("a pass does not double the block size")
+  c = w.cond(info["node"].test, vis["head"])
+  bad = None
+  for mv in (16, 32, 64, 1024, 16384):
+    for nv in (99 * mv, 100 * mv - 1, 100 * mv, 100 * mv + 1, 100 * mv + mv - 1, 101 * mv, 50 * mv):
+      try:
+        got = regions.eval_cond(c, regions.Valuation({n.as_atom(): nv, mh.as_atom(): mv}))
+      except regions.Unknown as u:
+        ctx.incomplete(R, f.where, "block size ladder", "loop condition not evaluable: %s" % u)
+        return
+      want = nv // mv >= 100
+      if got != want and bad is None:
+        bad = "at n = %d, m = %d the loop %s although n // m = %d: %s" % (nv, mv, "continues" if got else "stops", nv // mv,
+              "the test runs with 100 blocks of n / 100 bits (NIST: M > n / 100)" if not got else "the block size is doubled once too often")
+  if bad:
+    probs.append(bad)
+  # the block size used: max(20, m after the loop)
+  after = vis["after_env"].get(ms[0])
+  calls = [e for e in w.events if e.kind == "call" and e.data["name"].endswith(":SplitSequence") and len(e.data["args"]) >= 3]
+  if not calls or not all(isinstance(e.data["args"][2], Poly) and isinstance(after, Poly) and e.data["args"][2] == sym.mk("max", Poly.const(20), after) for e in calls):
+    probs.append("the block size is not max(20, m)")
+  ctx.record(R, f.where, "block size ladder: doubled while n // m >= 100, at least 20", not probs, "; ".join(sorted(set(probs))) or "M = max(20, least 16 * 2^j with n // M < 100)")
